@@ -34,9 +34,9 @@ func TestC04SQLite(t *testing.T) {
 		},
 		Teardown: func() { env.Close() },
 		Gen: func(t *rapid.T) sqSpec {
-			s := e1.Gen(t, e1.Opts{MaxTables: 1, Conservative: true, OnlyRowid: true, History: true, BigRows: vt.Pick(800, 4000), PageSizes: []int{512, 512, 1024, 4096}})
+			s := e1.Gen(t, e1.Opts{MaxTables: 2, Conservative: true, OnlyRowid: true, History: true, BigRows: vt.Pick(800, 4000), PageSizes: []int{512, 512, 1024, 4096}})
 			// more deletes than the generic history has
-			tn := s.Tables[0].Def.Ident.SQL
+			tn := s.Tables[len(s.Tables)-1].Def.Ident.SQL // (the last table: a trigger may carry its name)
 			n := rapid.IntRange(1, 4).Draw(t, "ndel")
 			for i := 0; i < n; i++ {
 				s.History = append(s.History, fmt.Sprintf("DELETE FROM %s WHERE rowid %% %d = %d", tn, rapid.IntRange(2, 7).Draw(t, "mod"), rapid.IntRange(0, 6).Draw(t, "rem")))
@@ -51,7 +51,8 @@ func runSQLite(r *vt.Run, t vt.TB, s sqSpec) {
 	path := env.NewPath()
 	defer sqdb.Remove(path)
 	created, _ := e1.Build(r, t, env, s.DB, path)
-	if !created[0] {
+	last := len(s.DB.Tables) - 1
+	if !created[last] {
 		r.Exclude("sqlite-rejects-create-table")
 		return
 	}
@@ -59,7 +60,7 @@ func runSQLite(r *vt.Run, t vt.TB, s sqSpec) {
 		r.Harness(t, "open: %v", err)
 	}
 	defer env.O.Close("q")
-	name := s.DB.Tables[0].Def.Ident.Name
+	name := s.DB.Tables[last].Def.Ident.Name
 	db, err := sqlittle.Open(path)
 	if err != nil {
 		r.Violation(t, s, "open-error", "a database written by SQLite does not open: %v", err)
